@@ -238,14 +238,6 @@ pub open spec fn opt16(x: Option<&[u8; 16]>) -> Seq<u8> {
     }
 }
 
-/// an absent key is the empty key (kk = 0)
-pub open spec fn opt_key(key: Option<&[u8]>) -> Seq<u8> {
-    match key {
-        Some(k) => k@,
-        None => Seq::empty(),
-    }
-}
-
 // ------------------------------------------------------------------------------------------------
 // ASSUMED std contracts (rule R2: the body of each shim is the original expression)
 // ------------------------------------------------------------------------------------------------
